@@ -382,6 +382,12 @@ impl Gen<'_> {
             }
         }
 
+        // a comment written before the selectors (`"lead":Mo 10:00-12:00`): it joins the rule's comments
+        if self.rng.chance(1, 14) && !parts.is_empty() && !parts[0].starts_with("24/7") && !parts[0].chars().next().is_some_and(|c| c.is_ascii_digit()) {
+            let lead = *self.rng.pick(&["a", "call us", "m", "zz", "b"]);
+            parts[0] = format!("\"{lead}\":{}", parts[0]);
+        }
+
         match self.rng.below(8) {
             0 | 1 => parts.push(self.rng.pick(&["off", "closed"]).to_string()),
             2 => parts.push("unknown".into()),
@@ -417,4 +423,41 @@ impl Gen<'_> {
 
         s
     }
+}
+
+/// An expression in which (almost) every rule carries its own distinguishable comment, some rules two
+/// (a leading `"..":` comment and a modifier comment).
+pub fn commented_expression(rng: &mut Rng) -> String {
+    let opts = GenOpts { corners: false, ..GenOpts::default() };
+    let mut g = Gen { rng, opts };
+    let nrules = 1 + g.rng.below(4);
+    let mut src = String::new();
+
+    for i in 0..nrules {
+        if i > 0 {
+            src.push_str(match g.rng.below(10) { 0..=4 => " ; ", 5..=8 => ", ", _ => " || " });
+        }
+        let rule = g.rule();
+        // strip any comment the generator added, then add the rule's own
+        let body: String = {
+            let r = rule.as_str();
+            let r = if r.starts_with('"') { r.splitn(3, '"').nth(2).unwrap_or("").trim_start_matches(':') } else { r };
+            r.split('"').next().unwrap().trim_end().to_string()
+        };
+        let lead_ok = !body.is_empty() && !body.starts_with("24/7") && !body.chars().next().is_some_and(|c| c.is_ascii_digit());
+        if lead_ok && g.rng.chance(1, 4) {
+            let lead = *g.rng.pick(&["a", "r0", "zz", "r9", "lead"]);
+            src.push_str(&format!("\"{lead}\":"));
+        }
+        src.push_str(&body);
+        if g.rng.chance(4, 5) {
+            if body.is_empty() {
+                src.push_str(&format!("\"r{i}\""));
+            } else {
+                src.push_str(&format!(" \"r{i}\""));
+            }
+        }
+    }
+
+    src
 }
